@@ -553,11 +553,19 @@ func FarRepeat(r *rand.Rand, w, h, dist, n int) *image.NRGBA {
 	if dist+n >= total {
 		return m
 	}
-	start := r.Intn(total - dist - n)
-	for i := 0; i < n; i++ {
-		sx, sy := (start+i)%w, (start+i)/w
-		dx, dy := (start+dist+i)%w, (start+dist+i)/w
-		copy(m.Pix[dy*m.Stride+dx*4:dy*m.Stride+dx*4+4], m.Pix[sy*m.Stride+sx*4:sy*m.Stride+sx*4+4])
+	// several runs, each repeated exactly dist-k pixels later (k small), spread over the available room
+	room := total - dist - n
+	for k := 0; k < 6; k++ {
+		start := (room / 6) * k
+		if room/6 > n {
+			start += r.Intn(room/6 - n)
+		}
+		d := dist - 17*k
+		for i := 0; i < n; i++ {
+			sx, sy := (start+i)%w, (start+i)/w
+			dx, dy := (start+d+i)%w, (start+d+i)/w
+			copy(m.Pix[dy*m.Stride+dx*4:dy*m.Stride+dx*4+4], m.Pix[sy*m.Stride+sx*4:sy*m.Stride+sx*4+4])
+		}
 	}
 	return m
 }
